@@ -306,17 +306,25 @@ class RestartState(Monitor):
         # (point, name) -> submit number the next job must be given
         self.resubmit: Tuple[Tuple[Tuple[str, str], int], ...] = ()
         self.env_at_stop = None
+        self.auto_decided = False
 
     def key(self):
-        return (self.snap, self.resubmit)
+        return (self.snap, self.resubmit, self.auto_decided)
 
     # ------------------------------------------------------------- events
     def on_event(self, kind: str, data: dict) -> None:
         w = self.w
-        if kind == 'finished':
+        if kind == 'set_stop':
+            if data['mode'] is not None and data['mode'].name == 'AUTO':
+                self.auto_decided = True
+        elif kind == 'finished':
             schd = w.schd
             if getattr(schd, 'pool', None) is None:
                 return
+            if self.auto_decided:
+                # (a stop command processed during the final wait for the
+                # process pool does not change what kind of shutdown it is)
+                data = dict(data, reason='stopped:AUTO')
             tasks = tuple(sorted(
                 task_snapshot(t) for t in schd.pool.get_tasks()))
             self.snap = (tasks, globals_snapshot(schd), data['reason'])
@@ -339,6 +347,7 @@ class RestartState(Monitor):
 
     def compare(self, w: World) -> None:
         snap, self.snap = self.snap, None
+        self.auto_decided = False
         if snap is None:
             return
         tasks, glob, reason = snap
@@ -456,8 +465,12 @@ class RestartGraphFaithful(GraphFaithful):
         return (self.stop, self.last_reason)
 
     def on_event(self, kind: str, data: dict) -> None:
-        if kind == 'finished':
-            self.last_reason = data['reason']
+        if kind == 'set_stop':
+            if data['mode'] is not None and data['mode'].name == 'AUTO':
+                self.last_reason = 'stopped:AUTO'
+        elif kind == 'finished':
+            if self.last_reason != 'stopped:AUTO':
+                self.last_reason = data['reason']
         elif kind == 'started' and data.get('restart'):
             if self.last_reason == 'stopped:AUTO':
                 # it shut down by itself: the stop point had been reached
